@@ -50,7 +50,8 @@ def _check_one(b, m, names, d, u, t, sub, fa, res, route):
     cube = None
     if route == 2:
         last, b._last_len = b._last_len, None
-        cube = b.cube({x: True for x in sub}) if sub else 1
+        # the variables are given by the support of the first operand: a cube of any polarity has the same support
+        cube = b.cube({x: ((t * 31 + sum(map(ord, x))) % 3 != 0) for x in sub}) if sub else 1
         b.incref(cube)       # operands of dd.bdd calls are referenced (precondition of C09/C03 under reordering)
         b._last_len = last
     if b._last_len is not None:
